@@ -196,7 +196,29 @@ def enumerate_case(case, mode, errnos, rep, tier, rng):
                 label += "Eof"
             if label in ("staging", "other") and install_seq is not None and order.get(id(c), -1) > install_seq:
                 label = "cleanup"
-            obs = dict(call="%s#%d %s %s" % (c.name, c.nth, c.kind, sb.rel(c.paths[-1]) if c.paths else ""), label=label, inject=inj,
+            # did the fault land where the traced run made this call?  The fault is addressed by call number; the order of
+            # the calls that clean up and copy staged files depends on hash order, the install steps come in a fixed order.
+            # So: the install steps completed before the fault must be the ones of the traced run, and a fault aimed at
+            # an install step must come after the same number of calls
+            bi = next((k for k, x in enumerate(base["calls"]) if x is c), None)
+            bfold = [x for x in phys.fold(base["calls"][:bi] if bi is not None else []) if not x.err]
+            ifold = [x for x in phys.fold(r["calls"]) if not x.err and not getattr(x, "injected", False)]
+            if bfold and (bfold[-1].name, bfold[-1].paths) == (c.name, c.paths):
+                bfold = bfold[:-1]
+            blab = [step_label(sb, x, oroot, v) for x in bfold]
+            ilab = [step_label(sb, x, oroot, v) for x in ifold]
+            steps = lambda ls: [l for l in ls if l not in ("staging", "other")]
+            clab = step_label(sb, c, oroot, v)
+            if mode == "kill":
+                # (strace may log the call the process was killed in: one entry more, with the target's label)
+                if len(ilab) == len(blab) + 1 and ilab[-1] == clab:
+                    ilab = ilab[:-1]
+                landed = bi is not None and steps(ilab) == steps(blab) and (clab in ("staging", "other") or len(ilab) == len(blab))
+            else:
+                landed = bi is not None and steps(ilab)[:len(steps(blab))] == steps(blab)
+            if not landed:
+                rep.count("fault-elsewhere:%s" % mode)
+            obs = dict(call="%s#%d %s %s" % (c.name, c.nth, c.kind, sb.rel(c.paths[-1]) if c.paths else ""), label=label, inject=inj, landed=landed,
                        upgrade=(case.kind == "upgrade"),
                        rc=r["rc"], err=r["err"][-300:], cls=cls, kind=case.kind, T=T, T_old=T_old, T_new=T_new, oroot=oroot, v=v,
                        other_ok=(canon_obj(sb, object_root(sb, "other") or "") == other_new), staged_dir=staged_dir, calls=r["calls"],
@@ -333,7 +355,7 @@ def run(rep, prop, tier, seed, proof_broken=False):
                     for f in fs:
                         fails.append((f, dict(kind=case.kind, args=case.args, inject=obs["inject"], call=obs["call"])))
                     want = obs["cls"] if obs["cls"] != "other" else "invalid"
-                    if mode in ("err", "kill"):
+                    if mode in ("err", "kill") and obs.get("landed", True):
                         lean_jobs.append(("script-commitfault %d %s %s" % (int(obs["upgrade"]), obs["label"], mode), want,
                                           dict(kind=case.kind, inject=obs["inject"], call=obs["call"], label=obs["label"], observed=obs["cls"], rc=obs["rc"])))
         finally:
